@@ -88,8 +88,18 @@ impl<'a> Reader<'a> {
                 #[warn(unsafe_code)]
                 let mut builder = unsafe { UserValue::builder_unzeroed(real_val_len as usize) };
 
-                lz4_flex::decompress_into(&raw_data, &mut builder)
+                let decompressed_len = lz4_flex::decompress_into(&raw_data, &mut builder)
                     .map_err(|_| crate::Error::Decompress(self.blob_file.0.meta.compression))?;
+
+                // NOTE: The length field in the blob header is not covered by the blob's
+                // checksum, so make sure the value really fills the buffer we allocated for it,
+                // otherwise we would hand out uninitialized bytes
+                if decompressed_len != real_val_len as usize {
+                    log::error!(
+                        "Blob {vhandle:?} decompressed to {decompressed_len} bytes, but its header says {real_val_len}",
+                    );
+                    return Err(crate::Error::Decompress(self.blob_file.0.meta.compression));
+                }
 
                 builder.freeze().into()
             }
